@@ -19,6 +19,7 @@ CONSTANTS
   M_RetryHolds = TRUE
   M_DQEmptiesBatch = TRUE
   M_CommitMax = TRUE
+  M_BusyTakesAll = TRUE
   M_TimerFlushesAny = TRUE
   TraceFile = "trace.ndjson"
 VIEW traceview
